@@ -48,8 +48,11 @@ func genMixedPair() (*spec.Schema, interface{}) {
 			pa.Default = 1.0 // an absent member with a default is exempt from "required"
 		}
 		s.Properties = map[string]spec.Schema{"a": pa, "b": strSchema("date", -1)}
-		if verifBool() {
+		switch verifChoose(3) {
+		case 1:
 			s.Required = []string{"a"}
+		case 2:
+			s.Required = []string{"a", "b", "c"}
 		}
 		if verifBool() {
 			s.AdditionalProperties = &spec.SchemaOrBool{Allows: false}
